@@ -1430,28 +1430,3 @@ Proof.
 Qed.
 
 (* ================================================================================ *)
-Print Assumptions str_ltb_trichotomy.
-Print Assumptions dir_get_put.
-Print Assumptions dir_get_remove.
-Print Assumptions dir_put_wf.
-Print Assumptions dir_remove_wf.
-Print Assumptions dir_ext.
-Print Assumptions str_of_Z_small.
-Print Assumptions str_of_Z_step.
-Print Assumptions str_of_Z_inj.
-Print Assumptions str_of_Z_no_dash.
-Print Assumptions globs_are_purged.
-Print Assumptions final_names_purged.
-Print Assumptions prev_pairs_junk.
-Print Assumptions read_pairs_junk.
-Print Assumptions batches_junk.
-Print Assumptions merging_tasks_junk.
-Print Assumptions rerun_frame.
-Print Assumptions rerun_equals_fresh.
-Print Assumptions rerun_fails_iff.
-Print Assumptions cleanup_leaves_no_round_files.
-Print Assumptions run_multiround_mr_writes.
-Print Assumptions no_partial_final_alt.
-Print Assumptions no_partial_final_le.
-Print Assumptions failed_run_no_final.
-Print Assumptions prev_pairs_other_round.
